@@ -520,8 +520,10 @@ class VerifyTask:
             k = st.fork(len(excs) + 1)
             if k > 0:
                 raise PyRaise(SExc(excs[k - 1], ("<from constructor contract>",), site=f"callee {cls.__name__}"))
-        for _l, fml in c._gen(c.ensures(None, obj, a, None)):
+        ens_fn = getattr(c, "ensures_callee", None) or c.ensures  # the callee-side form, as Contract.apply uses
+        for _l, fml in c._gen(ens_fn(None, obj, a, None)):
             st.assume(fml if isinstance(fml, (SBool, bool)) else mk_bool(V._zb(fml)))
+        st.cover(f"{self.name}/reach@after-{cls.__name__}():{(site or '').split(':')[-1]}")
         self.used_contracts.add(key)
         return obj
 
